@@ -15,7 +15,9 @@ PROPS = {
         'functions': ['unifiable.rs::Unifiable::unify'],
         'oracles': {'#mgu': 'c06_mgu', '#args_mgu_inv': 'c06_mgu', '#list_mgu_inv': 'c06_mgu', '#args_mgu_step': 'c06_mgu', '#sound': 'c06_mgu', '#args_sound_inv': 'c06_mgu', '#bind_sound': 'c06_mgu', '#list_sound_inv': 'c06_mgu',
                     '#list_sound_step': 'c06_mgu', '#list_sound_exits': 'c06_mgu', '*': 'c06_keeps',
-                    '#answer_extends': 'c01_prog', '#keeps_bindings': 'c01_prog', '#ext_kept': 'c01_prog', '#ext_inv': 'c01_prog', '#bindings_fixed': 'c01_prog'},
+                    '#answer_extends': 'c01_prog', '#ext_kept': 'c01_prog', '#ext_inv': 'c01_prog', '#bindings_fixed': 'c01_prog',
+                    # the built-in predicates share their code with the reference interpreter of c01_prog: their own oracles give the witnesses
+                    'built_in_functor.rs::next_solution_functor': 'c17_functor', 'built_in_filter.rs::bip_include': 'c17_filter', 'built_in_filter.rs::bip_exclude': 'c17_filter', 'built_in_count.rs::bip_count': 'c17_count', 'built_in_append.rs::next_solution_append': 'c16_append'},
         'bounded': [('c06_mgu', 'supplementary to the proof (soundness, completeness and generality are all under proof): success exactly when a unifier exists, identical when resolved, no more bindings than an MGU - against a reference unifier: '
                                 '22 terms (atoms, numbers, variables, $_, complex terms, lists with and without tail variables) pairwise under 7 prior substitutions; occurs-check pairs skipped')],
         'not_covered': [
@@ -247,7 +249,9 @@ PROPS['C05'] = {
 PROPS['C01'] = {
     'units': ['solver', 'print', 'unify', 'functions', 'solver_ext', 'solutions_ids', 'compare', 'listops', 'append'],
     'functions': SOLVER_FNS + ['solutions.rs::format_solution'],
-    'oracles': {'*': 'c01_prog', '#solve_all': 'c01_solve_all'},
+    'oracles': {'*': 'c01_prog', '#solve_all': 'c01_solve_all',
+                # the built-in predicates share their code with the reference interpreter of c01_prog: their own oracles give the witnesses
+                'built_in_functor.rs::next_solution_functor': 'c17_functor', 'built_in_filter.rs::bip_include': 'c17_filter', 'built_in_filter.rs::bip_exclude': 'c17_filter', 'built_in_count.rs::bip_count': 'c17_count', 'built_in_append.rs::next_solution_append': 'c16_append'},
     'bounded': [('c01_prog', 'the equivalence itself, BOUNDED: 3000 random stratified programs per seed (facts; rules of three levels calling lower levels only; conjunction, disjunction in one level of parentheses, unification, comparisons, count / append, '
                              'not, fail, print; partly instantiated structures; no cut) - the engine\'s answers (in order, with multiplicity, variables normalised) against a reference interpreter written from the statement (depth-first, left to right, clause order); '
                              'programs that build cyclic bindings or exceed the step limit are skipped'),
